@@ -92,6 +92,35 @@ type c13Runner struct {
 	m    c13Model
 	res  *c13Res
 	c    c13Case
+	// the most recent lookups, newest last: they are repeated straight after the next tree edit
+	// (an answer remembered from before the edit must not survive it)
+	recent    []c13Recent
+	replaying bool
+}
+
+type c13Recent struct {
+	scope int
+	expr  []byte
+	x     c13Expr
+}
+
+const c13RecentMax = 4
+
+// repeatRecent asks the last few lookups again, newest first.
+func (rn *c13Runner) repeatRecent(when string) *vlib.Failure {
+	rn.replaying = true
+	defer func() { rn.replaying = false }()
+	for k := len(rn.recent) - 1; k >= 0; k-- {
+		r := rn.recent[k]
+		if !rn.m.isLive(r.scope) {
+			continue
+		}
+		rn.res.bump("lookup-repeated-after-an-edit")
+		if f := rn.lookup(when+", lookup repeated straight after the edit", r.scope, r.expr, r.x, false); f != nil {
+			return f
+		}
+	}
+	return nil
 }
 
 func c13Mod(a, n int) int {
@@ -548,6 +577,12 @@ func (rn *c13Runner) buildExpr(l *c13Lookup) (int, []byte) {
 // lookup runs Find(scope, expr) against the reference resolver.
 func (rn *c13Runner) lookup(when string, scope int, expr []byte, x c13Expr, primary bool) *vlib.Failure {
 	tree, m := rn.tree, &rn.m
+	if !rn.replaying {
+		if len(rn.recent) == c13RecentMax {
+			rn.recent = append(rn.recent[:0], rn.recent[1:]...)
+		}
+		rn.recent = append(rn.recent, c13Recent{scope, expr, x})
+	}
 	var got uint32
 	if pc := vlib.Catch(func() { got = tree.Find(uint32(scope), expr) }); pc.Panicked {
 		return vlib.Failf("%s: Find(scope %s, %q) crashed: %v%s", when, rn.show(scope), expr, pc, rn.dump())
@@ -644,6 +679,11 @@ func c13Run(c c13Case) (*vlib.Failure, *c13Res) {
 		when := fmt.Sprintf("op %d (%s)", i, op.K)
 		if f := rn.step(when, i, op); f != nil {
 			return f, res
+		}
+		if op.K != "find" {
+			if f := rn.repeatRecent(when); f != nil {
+				return f, res
+			}
 		}
 	}
 	return nil, res
